@@ -628,6 +628,68 @@ pub fn beyond_range_text(k: FloatKind, rx: Radices, point: u8, exp_char: u8) -> 
         .boxed()
 }
 
+/// A number text with a significand of about `sig_bits` bits whose value lies in (or, for very short significands,
+/// next to) the binade of `m * 2^e2` (m a 53-bit style
+/// mantissa, e2 any binary exponent, also far outside the float range): digits in the mantissa radix, scaled by a
+/// power of the exponent base written in the exponent radix. Used for binade sweeps (every binade from hundreds
+/// below the smallest subnormal to hundreds above the largest finite value).
+pub fn binade_text(rx: Radices, m: u64, e2: i64, point: u8, exp_char: u8, neg: bool, sig_bits: u32) -> Vec<u8> {
+    let b = rx.base as u64;
+    let log2b = (rx.base as f64).log2();
+    // value = D * b^(-t): choose t so that D has about `sig_bits` bits (few bits = one or two digits: short
+    // mantissas take other paths than long ones, e.g. the early exits on the decimal exponent)
+    let bl = 64 - m.max(1).leading_zeros() as i64;
+    let t: i64 = (((sig_bits.max(2) as i64 - bl - e2) as f64) / log2b).ceil() as i64;
+    let d = if t >= 0 {
+        let n = Big::from_u64(m.max(1)).mul(&Big::pow(b, t as u64));
+        if e2 >= 0 { n.shl(e2 as u64) } else { n.shr((-e2) as u64) }
+    } else {
+        // large values: divide by b^(-t)
+        let mut n = Big::from_u64(m.max(1)).shl(e2.max(0) as u64);
+        for _ in 0..(-t) {
+            n.divrem_small(b);
+        }
+        n
+    };
+    let mut digits = d.to_digits(rx.mant);
+    if digits.is_empty() {
+        digits.push(1);
+    }
+    let mut out = Vec::new();
+    if neg {
+        out.push(b'-');
+    }
+    push_digits(&mut out, &digits[..1]);
+    out.push(point);
+    push_digits(&mut out, &digits[1..]);
+    // value = 0.d1d2.. style shift: D = d0.d1.. * r^(len-1); for mixed radices only whole powers of the base can be
+    // expressed, so the point shift is folded into the exponent when mantissa radix == base, else the digits stay
+    // an integer
+    let dpb = rx.digits_per_base();
+    let mut e = -t;
+    if rx.mant == rx.base {
+        e += digits.len() as i64 - 1;
+    } else {
+        // keep D an integer: drop the point again
+        out.clear();
+        if neg {
+            out.push(b'-');
+        }
+        push_digits(&mut out, &digits);
+        let _ = dpb;
+    }
+    out.push(exp_char);
+    if e < 0 {
+        out.push(b'-');
+    }
+    let ed = Big::from_u128(e.unsigned_abs() as u128).to_digits(rx.exp);
+    if ed.is_empty() {
+        out.push(b'0');
+    }
+    push_digits(&mut out, &ed);
+    out
+}
+
 /// Near-halfway inputs whose digit string, read as an integer, has whole low 64-bit limbs of
 /// zeros: `D * base^e` with `D = floor(M / base^e)` rounded down (or up) to a multiple of 2^z,
 /// z a multiple of 64, M the midpoint above a large float. The relative distance to the halfway
